@@ -48,7 +48,7 @@ PINNED = ('; all foreign calls pinned to return (boolean answers arbitrary), ver
 CB = '--max-field-sensitivity-array-size 128'
 
 
-# measured (16 busy cores): 2-6 min per harness, the whole-check harnesses 10-12 min
+# measured (16 busy cores): quick tier 1-4 min per harness; thorough: selection harnesses ~6 min, whole-check harnesses 5-14 min
 TO = {'quick': 2400, 'thorough': 5400}
 
 
@@ -59,22 +59,17 @@ def A(h, fns, bounds, **kw):
 C03 = [
     A('authenticate_signatures', [SA + 'authenticate', 'verifiers::VerifierClient::verify'], B_AUTH),
     A('authenticate_signatures_accepts', [SA + 'authenticate', 'verifiers::VerifierClient::verify'], B_AUTH + PINNED, must_succeed=True),
-    A('select_own_own', SEL_FNS, B_SEL + CALLCTX),
+    A('select_own_own', SEL_FNS, B_SEL + CALLCTX, tier='thorough'),
     A('select_default_default', SEL_FNS, B_SEL + CALLCTX, tier='thorough'),
-    A('select_own_default', SEL_FNS, B_SEL + CALLCTX),
-    A('select_default_own', SEL_FNS, B_SEL + CALLCTX),
+    A('select_own_default', SEL_FNS, B_SEL + CALLCTX, tier='thorough'),
+    A('select_default_own', SEL_FNS, B_SEL + CALLCTX, tier='thorough'),
     A('select_create_own_default', SEL_FNS, B_SEL + '; context: CreateContractHostFn', tier='thorough'),
-    A('select_create_ctor_one_own_rule', SEL_FNS, B_SEL.replace('2 LISTED rules in the concrete list shape named by the harness (older slot, newer slot)', 'ONE listed own-type rule + one unlisted rule') + '; context: CreateContractWithCtorHostFn', tier='thorough'),
     A('select_any_accepts', SEL_FNS, B_SEL_ANY + CALLCTX + PINNED, must_succeed=True),
-    A('select_create_any_accepts', SEL_FNS, B_SEL_ANY + '; context: CreateContractHostFn' + PINNED, must_succeed=True, tier='thorough'),
-    A('check_auth_one_default_rule', AUTH_FNS + EXAMPLE_AUTH, B_ONE + CALLCTX + '; through the example account\'s __check_auth'),
-    A('check_auth_one_own_rule', AUTH_FNS, B_ONE + '; context: CreateContractHostFn', tier='thorough'),
-    A('check_auth_one_default_rule_accepts', AUTH_FNS, B_ONE + CALLCTX + PINNED, must_succeed=True),
+    A('check_auth_one_default_rule', AUTH_FNS + EXAMPLE_AUTH, B_ONE + CALLCTX + '; through the example account\'s __check_auth', tier='thorough'),
+    A('check_auth_one_default_rule_accepts', AUTH_FNS, B_ONE + CALLCTX + PINNED, must_succeed=True, tier='thorough'),
     A('select_own_own_2pol', SEL_FNS, B_SEL2 + CALLCTX, tier='thorough'),
-    A('select_own_default_2pol', SEL_FNS, B_SEL2 + CALLCTX, tier='thorough'),
-    A('select_default_default_2pol', SEL_FNS, B_SEL2 + CALLCTX, tier='thorough'),
     A('check_auth_own_and_default_rule', AUTH_FNS, B_TWO + CALLCTX, tier='thorough'),
-    A('glue::check_auth_glue_2ctx', [SA + 'do_check_auth', SA + 'authenticate', 'policies::PolicyClient::enforce', 'verifiers::VerifierClient::verify'], B_GLUE, profile='sa_glue'),
+    A('glue::check_auth_glue_2ctx', [SA + 'do_check_auth', SA + 'authenticate', 'policies::PolicyClient::enforce', 'verifiers::VerifierClient::verify'], B_GLUE, profile='sa_glue', tier='thorough'),
 ]
 
 RULE_FNS = [SA + f for f in ('get_context_rule', 'compute_fingerprint', 'validate_and_set_fingerprint', 'remove_fingerprint',
@@ -117,8 +112,9 @@ C20 = [
 CHECKS = {
     'C03': {
         'kani': C03,
-        'bounds': ('split along do_check_auth = authenticate ; get_validated_context per context ; enforce per validated context. quick: ' + B_AUTH + ' | ' + B_SEL + ' | ' + B_ONE +
-                   ' | ' + B_GLUE + ' | thorough adds: <= 2 policies per rule in the selection; contract-creation contexts; whole check over two listed rules'),
+        'bounds': ('split along do_check_auth = authenticate ; get_validated_context per context ; enforce per validated context. quick: ' + B_AUTH + ' | ' + B_SEL_ANY +
+                   ' (converse only) | thorough adds: the selection over every two-rule list shape with its trace and returned rule (' + B_SEL + '), <= 2 policies, a '
+                   'contract-creation context; the whole check over one and over two listed rules (' + B_ONE + '); the composition for a batch of 2 contexts (' + B_GLUE + ')'),
         'outside_claim': ('rule sets beyond 2 listed rules / 2 signers / 2 policies per rule / 2 signatures; batches of 2 contexts only compositionally (stubbed selection; the un-stubbed whole check over 2 contexts exhausts 12 GB), batches beyond 2 (documented maxima 15 / 15 / 5; the loops are uniform: three listed rules at CAP=3 exhaust 12 GB; '
                           'the whole do_check_auth is checked over registries with at most two listed rules, the selection over every two-rule list shape separately: small-scope argument); real signature cryptography (verifier contracts are oracles) and real policy contracts (C14 covers the library\'s own); '
                           'the host\'s own matching of __check_auth results to the invocation tree; key and signature data longer than 2 bytes, rule names longer than 2 bytes '
